@@ -38,9 +38,9 @@ const modPath = "github.com/whawty/auth"
 
 var redirect = map[string]map[string]string{
 	// package dir -> import path -> simulator package
-	"store":           {"os": "simfs", "sync": "simsync"},
-	"sasl":            {"net": "simnet", "sync": "simsync"},
-	"cmd/whawty-auth": {"os": "simfs", "net": "simnet", "os/exec": "simexec", "os/signal": "simsignal", "sync": "simsync"},
+	"store":           {"os": "simfs", "sync": "simsync", "path/filepath": "simfilepath", "io/ioutil": "simioutil", "math/rand": "simrand", "math/rand/v2": "simrandv2"},
+	"sasl":            {"net": "simnet", "sync": "simsync", "math/rand": "simrand", "math/rand/v2": "simrandv2"},
+	"cmd/whawty-auth": {"os": "simfs", "net": "simnet", "os/exec": "simexec", "os/signal": "simsignal", "sync": "simsync", "path/filepath": "simfilepath", "io/ioutil": "simioutil", "math/rand": "simrand", "math/rand/v2": "simrandv2"},
 }
 
 type edit struct {
